@@ -176,7 +176,7 @@ PROPS = {
                      claim='the same agreement for described types (derive(DeserializeComposite) performatives, delivery states, message sections; Described<T>)', bound='8 typed values'),
                 dict(name='tree_vs_bytes_untyped', kind='agreement', target='serde_amqp::{to_value,from_value}~{to_vec,from_slice}', args=['C20.value-tree-untyped'],
                      claim='the same agreement with the untyped tree itself as target type (from_value::<Value>, OrderedMap<Symbol, Value>)', bound='8 values')],
-        units=['FRAMEDEC', 'READERS', 'SERSTR', 'SERFIX', 'SERHDR', 'VALUESER', 'BYTEREADER', 'DEENTRY', 'VISITENUM', 'SIZEENTRY', 'VALUETREE', 'SIMPLEVALUE', 'VALUEDE'], lemmas={'VALUESER': ['lemma_tree_equals_direct']}, kani=K_RT + K_READER, level='proof', title='Codec entry points agree (primitives; frame payload)',
+        units=['FRAMEDEC', 'READERS', 'SERSTR', 'SERFIX', 'SERHDR', 'VALUESER', 'BYTEREADER', 'DEENTRY', 'VISITENUM', 'SIZEENTRY', 'VALUETREE', 'SIMPLEVALUE', 'VALUEDE', 'SERENTRY'], lemmas={'VALUESER': ['lemma_tree_equals_direct']}, kani=K_RT + K_READER, level='proof', title='Codec entry points agree (primitives; frame payload)',
         assumptions=[
             'PROVED for every value: the fixed-width primitives listed in the obligations (Kani harnesses, loop-free / fully unwound over the full domain) and the compound header writers (Verus)',
             'BOUNDED ONLY (listed under bounded_obligations, never counted as proved): decoders on short byte strings, compound headers with hostile size/count bytes',
